@@ -88,6 +88,7 @@ func genC06(dir, tier string, seed int64) {
 	}
 	cw := newCaseWriter(dir, "C06_ops", opHeader("CheckC06"), opFooter,
 		"seeded random RNN / GRU / LSTM nodes: seq 1..4, batch 1..3, input 1..3, hidden 1..3 (one case in six with one of them 4, 5, 8 or 9) (all combinations incl. hidden = 1 and batch*input = 1), every subset of the optional inputs B, initial_h, initial_c, P (omitted trailing inputs and explicitly skipped ones), default and explicit activation lists over {Sigmoid, Tanh, Relu} in the ONNX and in lower-case spelling (and, one explicit list in five, a name the library does not implement -- Softsign, HardSigmoid, LeakyRelu, Elu, Affine, ThresholdedRelu, ScaledTanh, Softplus, the empty string -- with or without activation_alpha / activation_beta; too short lists), linear_before_reset in {absent,0,1}, input_forget in {absent,0,1}, float32 (float64 rarely: must be computed or refused); weights with pairwise distinct non-zero gate blocks and biases so that any gate or bias-slot swap moves the result far outside the tolerance", false, 60)
+	naming := goOnlyResult{Stream: "C06_output_names", Rule: "for every generated configuration that runs: the same node with only some of its outputs named (trailing ones left out, earlier ones skipped with an empty name: Y / -,Y_h / Y,- and for LSTM Y,-,Y_c / -,-,Y_c / -,Y_h,Y_c / -,Y_h / Y / Y,Y_h / Y,-,-) returns, at the position of every named output, bit for bit the tensor the full output list gives there", Violations: []string{}}
 	split := goOnlyResult{Stream: "C06_split", Rule: "for every generated configuration that runs and every split point 0 < k < seq: running X[0:k] and then X[k:] from the final state(s) of the first piece gives, bit for bit, the Y (concatenated), Y_h and Y_c of the whole run", Violations: []string{}}
 	gates := map[string]int{"RNN": 1, "GRU": 3, "LSTM": 4}
 	for c := 0; c < n; c++ {
@@ -181,6 +182,39 @@ func genC06(dir, tier string, seed int64) {
 
 		// split consistency, Go against Go
 		whole, ok := runRec3(op, cfg.attrs, cfg.outputs, cloneAll(ins))
+		if ok {
+			// outputs are bound by POSITION: whichever outputs the node names (trailing ones left out, earlier
+			// ones skipped with ""), every named output is the tensor the full list gives at that position
+			lists := [][]string{{"Y"}, {"", "Y_h"}, {"Y", ""}}
+			if op == "LSTM" {
+				lists = [][]string{{"Y", "", "Y_c"}, {"", "", "Y_c"}, {"", "Y_h", "Y_c"}, {"", "Y_h"}, {"Y"}, {"Y", "Y_h"}, {"Y", "", ""}}
+			}
+			for _, l := range lists {
+				naming.N++
+				nodeOutputs = l
+				res, okl := runRec3(op, cfg.attrs, l, cloneAll(ins))
+				nodeOutputs = cfg.outputs
+				bad := ""
+				if !okl {
+					bad = "the node fails although it runs with all outputs named"
+				} else if len(res) < len(l) {
+					bad = fmt.Sprintf("%d results for %d output names", len(res), len(l))
+				} else {
+					for i, n := range l {
+						if n == "" {
+							continue
+						}
+						if res[i] == nil || i >= len(whole) || tval(res[i]) != tval(whole[i]) {
+							bad = fmt.Sprintf("output %d (%s) is not the tensor the full output list gives at that position", i, n)
+							break
+						}
+					}
+				}
+				if bad != "" && len(naming.Violations) < 10 {
+					naming.Violations = append(naming.Violations, fmt.Sprintf("%s seq %d batch %d input %d hidden %d with outputs %q: %s", op, S, B, In, H, l, bad))
+				}
+			}
+		}
 		if !ok || S < 2 {
 			continue
 		}
@@ -294,6 +328,8 @@ func genC06(dir, tier string, seed int64) {
 	}
 	nodeOutputs = defaultNodeOutputs
 	cw.close()
+	naming.Distinct = naming.N
+	meta.GoOnly = append(meta.GoOnly, naming)
 	split.Distinct = split.N // every case is a fresh random draw / a different model, count or split point
 	meta.GoOnly = append(meta.GoOnly, split)
 }
